@@ -356,7 +356,10 @@ func (c *Checker) a4p(r *report.Report, p RTPair) {
 		for name, fn := range p.ParserParams {
 			opts.Params[name] = fn(src)
 		}
-		if p.Consumed != nil {
+		opts.Preds = p.ParserPreds
+		if p.ConsumedSkip != nil && p.ConsumedSkip(src) {
+			// no consumption claim on this instance
+		} else if p.Consumed != nil {
 			w := p.Consumed(src)
 			opts.Consumed = &w
 		} else if src.TotalOK && div8(src.Total) {
